@@ -78,6 +78,10 @@ def clientIP (r : Req) : Bytes :=
     | some ip => ip
     | none => r.peer
 
+/-- `compileProxies`: the hop limit as configured (`WithProxyMaxHops(n)`, 0 when the option is not given) becomes
+    the limit the walk uses — zero or less means the default, 1 (Tie: `compile_follows_the_source`) -/
+def compileMaxHops (configured : Int) : Nat := if configured ≤ 0 then 1 else configured.toNat
+
 /-! ## `Context.IsLocalhost` (router/request.go): a function of `ClientIP()` alone -/
 
 def localhostExact : List Bytes :=
